@@ -51,6 +51,10 @@ func (c *char) talentAttack(e event.ActionEnd) {
 	isAlly := c.engine.IsCharacter(e.Owner)
 	isBasicAtk := e.AttackType == model.AttackType_NORMAL
 	isNotKafka := e.Owner != c.id
+	if len(c.talentTargs) == 0 {
+		// no ally basic attack has been seen yet: nothing to follow up on
+		return
+	}
 	target := c.talentTargs[0]
 
 	if c.info.Eidolon >= 1 {
